@@ -19,6 +19,10 @@ use crate::util::*;
 use hcobs::{Chunk, StreamAction, StreamChunker, StreamReader};
 use owning_iovec::ByteArena;
 
+// `Clone` / `Default` of the chunker and the reader (track apileft)
+#[path = "fam_stream_clone.rs"]
+mod clone_ops;
+
 const FE: u8 = 0xFE;
 const FD: u8 = 0xFD;
 
@@ -186,6 +190,9 @@ struct ChunkerExec {
     chunks: Vec<Seen>,
     prev_data_last: Option<u8>, // last byte of the previous chunk if it was Data
     oracle_on: bool,            // false once a non-well-behaved script was installed
+    // `Clone` (fam_stream_clone.rs): a clone run in lockstep, and originals kept until the end of the case
+    fork: Option<clone_ops::ChunkerFork>,
+    graveyard: Vec<StreamChunker>,
 }
 
 impl ChunkerExec {
@@ -200,6 +207,8 @@ impl ChunkerExec {
             chunks: vec![],
             prev_data_last: None,
             oracle_on: true,
+            fork: None,
+            graveyard: vec![],
         }
     }
 
@@ -245,6 +254,7 @@ impl ChunkerExec {
             }
         };
         so.obs.push(format!("{}{}", head, reader_tail(&self.reader)));
+        self.lockstep(so);
         is_eof
     }
 
@@ -332,6 +342,12 @@ impl ChunkerExec {
 
 impl Exec for ChunkerExec {
     fn step(&mut self, w: &[&str]) -> StepOut {
+        if matches!(w.first().copied(), Some("stream" | "script" | "reset")) {
+            self.fork = None; // the lockstep clone has its own copy of the reader
+        }
+        if let Some(r) = self.clone_step(w) {
+            return r;
+        }
         match w {
             ["reset"] => {
                 *self = ChunkerExec::new();
@@ -412,6 +428,9 @@ struct ReaderExec {
     streams_set: usize,
     scripts_set: usize,
     started: bool,
+    // `Clone` (fam_stream_clone.rs)
+    fork: Option<clone_ops::ReaderFork>,
+    graveyard: Vec<StreamReader>,
 }
 
 impl ReaderExec {
@@ -426,6 +445,8 @@ impl ReaderExec {
             streams_set: 0,
             scripts_set: 0,
             started: false,
+            fork: None,
+            graveyard: vec![],
         }
     }
 
@@ -466,7 +487,7 @@ impl ReaderExec {
         };
         let ls = self.rd.last_sentinel_offset();
         let tail = reader_tail_noreqs(&self.reader);
-        match got {
+        let ended = match got {
             (Some(b), a, e, _) => {
                 so.obs.push(format!("some {} {}..{} last_sentinel={}{}", to_hex(&b), a, e, ls, tail));
                 so.tags.push("next_some".into());
@@ -485,7 +506,9 @@ impl ReaderExec {
                 self.results.push(Got::IoErr);
                 true
             }
-        }
+        };
+        self.lockstep(so);
+        ended
     }
 
     /// The property C06 itself: what a reference splitter + reference decoder
@@ -573,6 +596,12 @@ fn parse_verdicts(s: &str) -> Option<Vec<StreamAction>> {
 
 impl Exec for ReaderExec {
     fn step(&mut self, w: &[&str]) -> StepOut {
+        if matches!(w.first().copied(), Some("stream" | "script" | "judge" | "reset")) {
+            self.fork = None; // the lockstep clone has its own copy of the reader and of the judge
+        }
+        if let Some(r) = self.clone_step(w) {
+            return r;
+        }
         match w {
             ["reset"] => {
                 let mut so = StepOut::obs("ok");
@@ -965,6 +994,7 @@ impl Family for ChunkerFamily {
             // after a premature end-of-file / error the reader may have more to say
             ops.push(format!("drain {} 1", stream.len() + nev + 4));
         }
+        clone_ops::splice(rng, &mut ops, "pump", "drain");
         ops
     }
 }
@@ -1101,6 +1131,7 @@ impl Family for ReaderFamily {
         if hard {
             ops.push(format!("nextall {} 1", nseg + nev + 3));
         }
+        clone_ops::splice(rng, &mut ops, "next", "nextall");
         ops
     }
 }
